@@ -196,6 +196,7 @@ pub struct RequestBuilder {
 impl RequestBuilder {
     pub async fn send(self) -> Result<Response> {
         let mut url = self.url?;
+        let origin = url.clone();
         let mut hops = 0;
         // One deadline for the whole exchange, redirects included.
         let deadline = self
@@ -203,7 +204,7 @@ impl RequestBuilder {
             .timeout
             .map(|d| simkit::now().saturating_add(d.as_nanos().min(u64::MAX as u128) as u64));
         loop {
-            let handle = sim::start_request(&self.client, &url, deadline);
+            let handle = sim::start_request(&self.client, &url, &origin, deadline);
             let head = sim::HeadFuture { req: &handle }.await;
             match head {
                 Err(kind) => return Err(Error::new(kind, Some(url))),
